@@ -41,6 +41,8 @@ class TreeSpec:
     floors: dict | None = None
     reset: Callable | None = None  # called before each class (clears per-class state of the check)
     tagged_boost: int = 4  # classes that (transitively) have tagged fields get this many times the examples
+    size_sweep: bool = False  # deterministic sweep of bytes/records (and unknown-tag payload) sizes, see size_sweep_tasks
+    sweep_extra: object = None  # the `extra` handed to check() for sweep cases
 
 
 NOTES: Counter = Counter()  # side channel: checks call note(key, n); drained per class
@@ -201,6 +203,11 @@ def run_tree_property(ctx: Ctx, modname: str, spec: TreeSpec) -> Report:
     total.assumptions = list(spec.assumptions)
     for rep in pool_imap_unordered(_worker, tasks, chunksize=4):
         total.merge(rep)
+    if spec.size_sweep:
+        sweep = size_sweep_tasks(modname, spec)
+        for rep in pool_imap_unordered(_sweep_worker, sweep, chunksize=1):
+            total.merge(rep)
+        total.extra["size_sweep_tasks"] = len(sweep)
     total.extra["classes_covered"] = len(cds)
     total.extra["examples_per_class"] = n
     total.extra["profile"] = spec.profile.name
@@ -215,7 +222,122 @@ def run_tree_property(ctx: Ctx, modname: str, spec: TreeSpec) -> Report:
     return total
 
 
+# --------------------------------------------------------------------------- deterministic size sweep
+# Sizes at which a length prefix changes width (length + 1 = 2^7, 2^14, 2^21 for compact fields) and sizes that are exact
+# multiples of the block sizes chunked I/O code likes (64 KiB .. 16 MiB).  Random generation reaches them with
+# negligible probability, so the tree properties visit them by enumeration for a few classes of each shape.
+SWEEP_SIZES = (126, 127, 128, 129, 16382, 16383, 16384, 16385, 32767, 32768, 65535, 65536, 2097150, 2097151, 2097152, 2097153,
+               1 << 20, 1 << 22, 1 << 23)
+SWEEP_SIZES_BIG = (3 << 22, 1 << 24, (1 << 24) + 1, 1 << 25, 3 << 24)  # 12, 16, 16+, 32, 48 MiB: two classes per shape only
+
+
+def _blob_paths(cd: D.ClassDesc, depth: int = 0):
+    """paths (tuples of field names) to bytes/records fields, through structs and one-item struct arrays"""
+    for f in cd.fields:
+        if f.kind in ("bytes", "records") and not f.array:
+            yield (f.name,), f
+        elif f.kind == "struct" and depth < 3:
+            for sub, g in _blob_paths(f.struct, depth + 1):
+                yield (f.name,) + sub, g
+
+
+def sweep_tree(cd: D.ClassDesc, path: tuple, blob: bytes) -> dict:
+    from .refcodec import zero_tree
+
+    tree = zero_tree(cd)
+    node, c = tree, cd
+    for i, name in enumerate(path):
+        f = next(x for x in c.fields if x.name == name)
+        if i == len(path) - 1:
+            node[name] = Present(blob) if f.tag is not None else blob
+            break
+        child = zero_tree(f.struct)
+        v = [child] if f.array else child
+        node[name] = Present(v) if f.tag is not None else v
+        node, c = child, f.struct
+    return tree
+
+
+def size_sweep_targets(spec: TreeSpec) -> list[tuple[str, tuple, bool]]:
+    """-> [(class path, field path or ("__unknown__",), with_big_sizes)]: per shape (flexible?, kind, nullable, nested?) the
+    first three classes in path order; per flexible/top-level-ness two classes for unknown-tag payloads."""
+    seen: Counter = Counter()
+    out = []
+    for cls in D.all_classes():
+        cd = D.describe(cls)
+        if spec.class_filter and not spec.class_filter(cd):
+            continue
+        for path, f in _blob_paths(cd):
+            shape = (cd.flexible, f.kind, f.nullable, len(path) > 1, f.tag is not None)
+            if seen[shape] < 3:
+                seen[shape] += 1
+                out.append((cd.path, path, seen[shape] <= 2))
+            break
+        if spec.profile.unknown_tags and cd.flexible and not cd.is_request_header:
+            shape = ("unknown", bool(cd.tagged_fields))
+            if seen[shape] < 2:
+                seen[shape] += 1
+                out.append((cd.path, (UNKNOWN,), True))
+    return out
+
+
+def _sweep_worker(task) -> Report:
+    modname, path, fpath, sizes = task
+    spec = importlib.import_module(modname).SPEC
+    cd = D.describe(D.resolve(path))
+    rep = Report(prop=spec.prop, level=spec.level, rule=spec.rule)
+    NOTES.clear()
+    if spec.reset is not None:
+        spec.reset()
+    for n in sizes:
+        blob = (b"kio-sweep-" * (n // 10 + 1))[:n]
+        if fpath == (UNKNOWN,):
+            from .refcodec import zero_tree
+
+            tree = zero_tree(cd)
+            known = {f.tag for f in cd.tagged_fields}
+            tree[UNKNOWN] = [(max(known | {0}) + 1, blob)]
+        else:
+            tree = sweep_tree(cd, fpath, blob)
+        rep.evaluations += 1
+        rep.labels["size_sweep"] += 1
+        rep.nontrivial.add(case_hash((cd.path, fpath, n)))
+        try:
+            res = guarded_check(spec, cd, tree, spec.sweep_extra)
+        except Exception as e:
+            import traceback
+
+            raise HarnessError(f"size sweep {path} {fpath} {n}: {type(e).__name__}: {e}\n{traceback.format_exc()}") from None
+        for sig, msg in res:
+            rep.add_failure(Failure(signature=f"{sig}", message=f"[size sweep: {'.'.join(fpath)} = {n} bytes] {msg}"[:4000],
+                                    replay={"class": cd.path, "sweep": {"path": list(fpath), "size": n}, "extra": _extra_json(spec.sweep_extra)},
+                                    size=n))
+    return rep
+
+
+def size_sweep_tasks(modname: str, spec: TreeSpec) -> list:
+    tasks = []
+    for path, fpath, big in size_sweep_targets(spec):
+        tasks.append((modname, path, fpath, SWEEP_SIZES))
+        if big:
+            for n in SWEEP_SIZES_BIG:
+                tasks.append((modname, path, fpath, (n,)))
+    return tasks
+
+
 def replay_tree_case(spec: TreeSpec, case: dict) -> list:
+    if "sweep" in case:
+        cd = D.describe(D.resolve(case["class"]))
+        fpath, n = tuple(case["sweep"]["path"]), case["sweep"]["size"]
+        blob = (b"kio-sweep-" * (n // 10 + 1))[:n]
+        if fpath == (UNKNOWN,):
+            from .refcodec import zero_tree
+
+            tree = zero_tree(cd)
+            tree[UNKNOWN] = [(max({f.tag for f in cd.tagged_fields} | {0}) + 1, blob)]
+        else:
+            tree = sweep_tree(cd, fpath, blob)
+        return guarded_check(spec, cd, tree, extra_from_json(case.get("extra")))
     cd = D.describe(D.resolve(case["class"]))
     tree = tree_from_json(case["tree"])
     extra = extra_from_json(case.get("extra"))
